@@ -46,6 +46,14 @@ func (fr *Frame) callWith(st *State, c *ssa.CallCommon, args []Val, fnv Val, pos
 	if c.IsInvoke() {
 		recv := fnv
 		key := ifaceMethodKey(c.Value.Type(), c.Method.Name())
+		if key == "sync.Locker.Lock" || key == "sync.Locker.Unlock" {
+			// the mutex behind the Locker interface is identified by the interface payload
+			mk := map[string]string{"sync.Locker.Lock": "sync.Mutex.Lock", "sync.Locker.Unlock": "sync.Mutex.Unlock"}[key]
+			vc.fact(fr.curCond, "(> "+recv.C[1]+" 0)") // a Locker is a pointer to an allocated mutex
+			if res, ok := fr.lockPrimitive(st, mk, []Val{{T: refT, C: []string{recv.C[1]}}}, pos); ok {
+				return res
+			}
+		}
 		all := append([]Val{recv}, args...)
 		if fc := vc.prog.cs.Funcs[key]; fc != nil {
 			return fr.applyContract(st, fc, key, nil, sig, all, pos)
@@ -486,7 +494,7 @@ func (fr *Frame) lockPrimitive(st *State, key string, args []Val, pos token.Pos)
 		// requires the associated lock held; releases and re-acquires it: everything shared may change
 		vc.assumptions["assumed contract: sync.Cond.Wait (monitor havoc of all heap state; lock held before and after)"] = true
 		for k, srt := range vc.heapSorts {
-			if k == "top" || k == "held" {
+			if k == "top" || k == "held" || strings.HasPrefix(k, "F:sync.Cond.") {
 				continue
 			}
 			st.heap[k] = vc.fresh(k, srt)
